@@ -165,10 +165,10 @@ def record(vh, plan, rec, seed, wd, steps=0):
     return r
 
 
-def load_recording(plan, rec, d, root):
+def load_recording(plan, rec, d, root, side=None):
     r = Recording()
     r.plan, r.rec, r.name, r.dir = plan, rec, "P%dR%d" % (plan, rec), d
-    r.side = root + ".side"
+    r.side = side or (root + ".side")
     r.sim = disksim.DiskSim(os.path.join(d, "strace.log"), os.path.join(d, "base"), root)
     if r.sim.problems:
         raise Inconclusive("syscall log of %s unusable: %s" % (r.name, "; ".join(r.sim.problems[:5])))
@@ -704,18 +704,16 @@ def replay(pid, plan_path, extra):
     os.makedirs(d)
     with tarfile.open(w["artefacts"]) as tf:
         tf.extractall(d)
-    # the side directory sits next to the original root
-    root = os.path.join(d, "live")
-    r = load_recording(w["plan"], w["rec"], d, root)
-    # the syscall log names the original root
-    r.sim = disksim.DiskSim(os.path.join(d, "strace.log"), os.path.join(d, "base"), w["root"])
+    # the syscall log names the original root; the side directory was stored next to it
+    r = load_recording(w["plan"], w["rec"], d, w["root"], side=os.path.join(d, "live.side"))
     _RECS[r.name] = r
     ex = dict(extra(r))
     res = _recover((r.name, 0, w["k"], w["j"], w["variant"], vh, wd, w["seed"], 900, ex, True))
-    o = res.get("out") or {}
+    shown = dict(res)
+    shown["out"] = dict(res.get("out") or {})
     for big in ("raw", "canon"):
-        if big in o:
-            o[big] = o[big][:400] + "..."
-    print(json.dumps(res, indent=1, default=str)[:8000])
+        if big in shown["out"]:
+            shown["out"][big] = shown["out"][big][:400] + "..."
+    print(json.dumps(shown, indent=1, default=str)[:8000])
     print("work dir:", wd)
     return r, res
